@@ -935,9 +935,12 @@ func sameJSONBytes(a, b []byte) bool {
 	if bytes.Equal(a, b) {
 		return true
 	}
-	ta, ea := parseTree(a)
-	tb, eb := parseTree(b)
-	return ea == nil && eb == nil && canon(ta) == canon(tb)
+	// the same members (every occurrence of a repeated one) with the same exact numbers; not a
+	// comparison of encoding/json trees, which keep one of two members with the same name and
+	// round large integers
+	ta, _, ea := jsonTokens(a)
+	tb, _, eb := jsonTokens(b)
+	return ea == nil && eb == nil && canonTokens(ta) == canonTokens(tb)
 }
 
 func flagDumpJSON(f *ldmodel.FeatureFlag) string {
@@ -1044,6 +1047,10 @@ func (c *UnitCase) runCodec() bool {
 			c.Go = map[string]any{"panic": "output is not valid JSON: " + perr.Error()}
 			return true
 		}
+		if _, dup, _ := jsonTokens(data); dup != "" {
+			c.Go = map[string]any{"panic": "output has two members named " + dup + " in one object"}
+			return true
+		}
 		c.GoTree = &t
 		c.Go = map[string]any{"tree": toGenericAny(t)}
 		return true
@@ -1059,6 +1066,10 @@ func (c *UnitCase) runCodec() bool {
 		t, perr := parseTree(data)
 		if perr != nil {
 			c.Go = map[string]any{"panic": "output is not valid JSON: " + perr.Error()}
+			return true
+		}
+		if _, dup, _ := jsonTokens(data); dup != "" {
+			c.Go = map[string]any{"panic": "output has two members named " + dup + " in one object"}
 			return true
 		}
 		c.GoTree = &t
@@ -1132,6 +1143,17 @@ func byteRobustness(kind string, data []byte) (msg string) {
 		if err := dest.UnmarshalJSON(data); err != nil && flagDumpJSON(&dest) != before {
 			return "UnmarshalJSON modified its destination although it returned an error"
 		}
+		// the same with a destination whose every list, optional and nested object is populated
+		// (a hook that decodes in place would reset or append to those before failing)
+		rich := usedFlagDestination()
+		richBefore := capDump(&rich)
+		if err := rich.UnmarshalJSON(data); err != nil && capDump(&rich) != richBefore {
+			return "UnmarshalJSON modified a populated destination although it returned an error"
+		}
+		rich2 := usedFlagDestination()
+		if err := json.Unmarshal(data, &rich2); err != nil && capDump(&rich2) != richBefore {
+			return "json.Unmarshal modified a populated destination although it returned an error"
+		}
 	} else {
 		vals, errs, names := decodeSegmentPaths(data)
 		for i := range vals {
@@ -1149,6 +1171,15 @@ func byteRobustness(kind string, data []byte) (msg string) {
 		before := segDumpJSON(&dest)
 		if err := dest.UnmarshalJSON(data); err != nil && segDumpJSON(&dest) != before {
 			return "UnmarshalJSON modified its destination although it returned an error"
+		}
+		rich := usedSegmentDestination()
+		richBefore := capDump(&rich)
+		if err := rich.UnmarshalJSON(data); err != nil && capDump(&rich) != richBefore {
+			return "UnmarshalJSON modified a populated destination although it returned an error"
+		}
+		rich2 := usedSegmentDestination()
+		if err := json.Unmarshal(data, &rich2); err != nil && capDump(&rich2) != richBefore {
+			return "json.Unmarshal modified a populated destination although it returned an error"
 		}
 	}
 	return ""
